@@ -1,6 +1,8 @@
+mod fault;
 mod mux;
 mod read;
 mod tables;
+mod trunc;
 mod streams;
 mod util;
 
@@ -49,6 +51,42 @@ fn main() {
             drop(out);
             w.flush().unwrap();
             println!("{{\"cases\":{},\"events\":{}}}", cases.len(), n);
+        }
+        "fault-run" => {
+            let cases = read_cases(&a[2]);
+            let mut w = BufWriter::new(File::create(&a[3]).unwrap());
+            let mut out = mux::Out { w: &mut w, events: 0 };
+            for c in cases.iter() {
+                fault::run_case(c, &mut out);
+            }
+            let n = out.events;
+            drop(out);
+            w.flush().unwrap();
+            println!("{{\"cases\":{},\"events\":{}}}", cases.len(), n);
+        }
+        "trunc-run" => {
+            let cases = read_cases(&a[2]);
+            let mut w = BufWriter::new(File::create(&a[3]).unwrap());
+            let mut out = mux::Out { w: &mut w, events: 0 };
+            for c in cases.iter() {
+                trunc::run_case(c, &mut out);
+            }
+            let n = out.events;
+            drop(out);
+            w.flush().unwrap();
+            println!("{{\"cases\":{},\"events\":{}}}", cases.len(), n);
+        }
+        "mux-file" => {
+            // write the output files of muxing cases: one ndjson line {id, file} per case
+            let cases = read_cases(&a[2]);
+            let mut w = BufWriter::new(File::create(&a[3]).unwrap());
+            for c in cases.iter() {
+                if let Some((s, pos, _)) = mux::mux_once(c, None) {
+                    let v = serde_json::json!({"id": c["id"], "file": util::bytes_val(&s.read_range(pos, (s.len - pos) as usize))});
+                    serde_json::to_writer(&mut w, &v).unwrap();
+                    w.write_all(b"\n").unwrap();
+                }
+            }
         }
         "tables-gen" => {
             let seed: u64 = a[2].parse().unwrap();
